@@ -55,7 +55,7 @@ NoView == [on |-> FALSE, kind |-> "", buf_size |-> 0, rs |-> 0, re |-> 0, is |->
 \* measured and dropped
 Script(vw, bs, be, lens, n) ==
     [vw EXCEPT !.short = ~(bs.t = "i" /\ be.t = "e"), !.lens = lens, !.steps = 0, !.maxsteps = Min(n + 1, MaxScript)]
-LenDue == view.lens /\ ev.op \notin {"v_len", "v_size_hint"}
+LenDue == view.lens /\ ev.op \notin {"v_len", "v_size_hint", "v_debug"}
 
 (***************************************************************************)
 (* Machine arithmetic, exactly as lib.rs:240-257.                          *)
@@ -584,6 +584,15 @@ NextIO ==
                 got == IdsAt(slots, SubSeq(p[1], 1, c1) \o SubSeq(p[2], 1, c2))
                 r == TruncFront(Rnow, USub(size, c1 + c2), NoFault) IN
             Commit(IoEv("read", r, k, <<>>, [RetN(c1 + c2) EXCEPT !.ids = got]), r) /\ UNCHANGED view
+       \/ \E k \in 0..(N + 2) :                                     \* read_exact (provided method): loop of read()
+            LET enough == k <= size
+                r == TruncFront(Rnow, IF enough THEN size - k ELSE 0, NoFault)
+                got == IF enough THEN SubSeq(MyIds, 1, k) ELSE <<>> IN
+            Commit(IoEv("read_exact", r, k, <<>>, [RetK(IF enough THEN "ok" ELSE "eof") EXCEPT !.ids = got]), r) /\ UNCHANGED view
+       \/ \E k \in 0..MaxArg :                                    \* write_all (provided method): loop of write()
+            LET data == [x \in 1..k |-> 100 + x]
+                r == ExtendFromSlice(Rnow, data, NoFault) IN
+            Commit(IoEv("write_all", r, 0, data, RetK("ok")), r) /\ UNCHANGED view
        \/ LET p == SlicesOf(start, size)                            \* fill_buf: the front slice unless it is empty
                sl == IF p[1] # <<>> THEN p[1] ELSE p[2] IN
            Commit(IoEv("fill_buf", Rnow, 0, <<>>, [RetK("ids") EXCEPT !.ids = IdsAt(slots, sl), !.slots = sl]), Rnow) /\ UNCHANGED view
@@ -660,7 +669,13 @@ NextViewStep ==
                  /\ Commit([e EXCEPT !.post = ViewObs(e)], r)
        \/ LET n == IF view.kind = "drain" THEN view.ie - view.is ELSE IF view.kind = "into" THEN size ELSE Len(view.right) + Len(view.left)
               r == [Rnow EXCEPT !.ret = [RetN(n) EXCEPT !.ids2 = <<n, n>>]]
-              e == IntoH(ViewEv(IF view.steps % 2 = 1 THEN "v_size_hint" ELSE "v_len", r, Ev0)) IN
+              win == IF view.kind = "drain" THEN IdsAt(slots, [k \in 1..n |-> AddMod(start, view.is + k - 1, N)])
+                     ELSE IF view.kind = "into" THEN MyIds ELSE IdsAt(slots, view.right \o view.left)
+              \* the measuring call after each step cycles through len(), size_hint() and Debug formatting
+              which == CASE view.steps % 3 = 0 -> "v_len" [] view.steps % 3 = 1 -> "v_size_hint" [] OTHER -> "v_debug"
+              rd == [Rnow EXCEPT !.ret = [RetK("str") EXCEPT !.ids2 = Vals(S, win), !.b = TRUE],
+                                 !.cbs = [k \in 1..Len(win) |-> Cb("fmt", win[k], 0)]]
+              e == IntoH(IF which = "v_debug" THEN [ViewEv("v_debug", rd, Ev0) EXCEPT !.allocs = -1] ELSE ViewEv(which, r, Ev0)) IN
           /\ LenDue
           /\ view' = view
           /\ Commit([e EXCEPT !.post = ViewObs(e)], r)
@@ -741,6 +756,10 @@ MechInv ==
 OccInv == (S.taint = "" /\ ~view.on /\ ~Bytes) =>
               /\ \A k \in Occupied : slots[k] > 0 /\ Nd(S, slots[k]) = 0
               /\ \A k, m \in Occupied : k # m => slots[k] # slots[m]
+
+\* reachability of the one-shot initial states: with this VIEW, TLC's distinct states in history mode are the
+\* physical layouts (start, size) reachable from new() (Reach_Ring.cfg.tmpl)
+LayoutView == <<start, size>>
 
 \* scenario output: one JSON line per finished behaviour
 \* (inputs, plus what the mechanism predicts for the layout afterwards - used for drift notes only)
